@@ -3,7 +3,7 @@ import ast
 
 from . import scopes
 from ..core.report import DOMAIN_D
-from ..rules import roles, loops, eager, degree, frame, mirror, safediv, runmin
+from ..rules import roles, loops, eager, degree, frame, mirror, safediv, runmin, onsegment
 from ..engines.signs import Signs, NONNEG, ZERO
 from .common import e1, e2
 
@@ -17,7 +17,7 @@ def run(idx, rep, tier):
         "signs): the returned distance of every public function is >= 0 by construction (norm / sqrt / abs / 0.0 / a callee's "
         "distance), evaluated with the default flags. R-TRIPLE / R-ROLE / R-ROLEAGREE (role flow): composite functions take "
         "distance and points from ONE sub-query and return the points in the order of the primitives, mapping callee results "
-        "through the argument groups of each call. R-MIRROR: the two halves of the line-to-box case analysis are mirror images under i0<->i1. R-CASEDISPATCH: on all 8 sign patterns of the line direction the case function moves along exactly the positive axes and clamps exactly the zero axes. R-TOURNAMENT: _case_no_zeros hands _box_face the axis that won all its pairwise comparisons. R-BOXFACE: the branches of _box_face are mirror images / verbatim re-uses of each other and every leaf uses one offset per axis in delta, squared distance and stored point. R-SQRTDOMAIN: math.sqrt arguments are >= 0 by construction (no bare differences). R-SELCOMP: a division by a component with a computed index selects a non-zero component first. R-HANG (engine E4): every loop of the package is CAP or STRUCT with literal "
+        "through the argument groups of each call. R-ONSEGMENT: points returned as 'closest point on the segment' are start + p*d with p confined to [0,1] / [0,L] on every path (must-analysis with branch refinement). R-CLIPSYM: box / rectangle / cylinder coordinates are clipped to [-h, +h] with h half a size. R-MIRROR: the two halves of the line-to-box case analysis are mirror images under i0<->i1. R-CASEDISPATCH: on all 8 sign patterns of the line direction the case function moves along exactly the positive axes and clamps exactly the zero axes. R-TOURNAMENT: _case_no_zeros hands _box_face the axis that won all its pairwise comparisons. R-BOXFACE: the branches of _box_face are mirror images / verbatim re-uses of each other and every leaf uses one offset per axis in delta, squared distance and stored point. R-SQRTDOMAIN: math.sqrt arguments are >= 0 by construction (no bare differences). R-SELCOMP: a division by a component with a computed index selects a non-zero component first. R-HANG (engine E4): every loop of the package is CAP or STRUCT with literal "
         "or parameter bounds. R-EAGER (engine E1) on the calls into explicitly typed compiled helpers. R-RETDEGREE "
         "(engine E3: returned distance and points have length degree 1). R-FRAME / R-FRAMERET (engine E2) for the functions that evaluate in a local frame (box, cylinder, ellipsoid). "
         "Membership of arithmetically constructed leaf points within 1e-9 L, NaN-freedom and 'never raises' beyond "
@@ -46,6 +46,8 @@ def run(idx, rep, tier):
     roles.r_role(idx, rep)
     roles.r_roleagree(idx, rep)
     runmin.r_runmin(idx, rep, [x.name for x in idx.lib_modules() if x.name.startswith("distance3d.distance")], floor=6)
+    onsegment.r_onsegment(idx, rep, [x.name for x in idx.lib_modules() if x.name.startswith("distance3d.distance")], floor=4)
+    onsegment.r_clipsym(idx, rep, [x.name for x in idx.lib_modules() if x.name.startswith("distance3d.distance")], floor=4)
     mirror.r_mirror(idx, rep)
     mirror.r_casedispatch(idx, rep)
     mirror.r_tournament(idx, rep)
